@@ -45,6 +45,13 @@ AGG_RULES = [
   'roll.<rest> (30) = count x.<<rest>>',
   'w<n>.sum (10) = sum web.<n>.req',
 ]
+# same input patterns, other aggregate names: a reload must re-map the inputs
+AGG_RULES_ALT = [
+  '<env>.app.total.req (10) = sum <env>.app.*.req',
+  'web.sum.req (5) = sum web.*.req',
+  'sys.<what>.peak (10) = max sys.<what>.*',
+  'rolled.<rest> (30) = count x.<<rest>>',
+]
 RULE_PATTERNS = ['^a\\.', 'cpu', '^sys\\.', 'req$', '^web\\.[0-9]', '^prod', 'zzz', '.*', '\\.app\\.', '^$']
 
 
@@ -176,6 +183,8 @@ def gen_plan(rng, cfg, tier, profile):
   if profile in ('c05', 'c06', 'c16'):
     w.update(conn_refuse=6, reset=4, conn_ok=6, advance=8, stopclient=1, chunk=0, self=0, stall=0, unstall=0,
              read=0, arrive=6)
+  if profile == 'c16' and 'aggregated' in s['RELAY_METHOD']:
+    w['rulesfile'] = 3
   kinds = [k for k, x in w.items() for _ in range(x)]
   # most plans let connections come up early so that there is traffic to disturb
   if rng.random() < 0.7:
@@ -201,6 +210,11 @@ def gen_plan(rng, cfg, tier, profile):
       ops.append(['read', rng.randrange(nd), rng.choice([1, 10, 100, 1000])])
     elif k == 'advance':
       ops.append(['advance', rng.choice([0.0, 0.0001, 0.001, 0.02, 0.6, 1.0, 2.5, 6.0, 6.0, 31.0])])
+    elif k == 'rulesfile':
+      # the aggregation rules change under the running relay (re-read every 10 s)
+      ops.append(['file', 'aggregation-rules.conf',
+                  '\n'.join(rng.sample(AGG_RULES + AGG_RULES_ALT, rng.randint(1, 5))) + '\n'])
+      ops.append(['advance', rng.choice([10.0, 10.5, 12.0, 21.0])])
   if profile == 'c07' and rng.random() < 0.3:
     # an orderly stop, sometimes with traffic still arriving while connections close
     pos = len(ops) if rng.random() < 0.5 else rng.randint(len(ops) // 2, len(ops))
